@@ -72,8 +72,43 @@ func newGovModel(s *scn) *govModel {
 	return &govModel{s: s, proposals: map[string]*mProposal{}, objStatus: map[string]string{}, objRaw: map[string]string{}, forbidden: map[string]bool{}}
 }
 
+// applyRoleCycle: a governance administrator is frozen for sure (the freeze is approved by everybody), then, by
+// stage, asks to be activated again (the request stays open) and votes on every open proposal while it is
+// unavailable. Random single operations hardly ever get an administrator through more than one of these stages.
+func applyRoleCycle(s *scn, st CStep) {
+	w := s.cfg.World
+	if w.Admins < 2 {
+		return
+	}
+	i := st.B % w.Admins
+	if i == 0 {
+		i = 1
+	}
+	x := w.adminKey(i)
+	addr := x.Addr.String()
+	by := w.adminKey(st.A % w.Admins)
+	if !s.govApprove(by, constant.RoleContractAddr, "freeze-role/govadmin/"+addr, addr, "FreezeRole", pb.String(addr), pb.String("reason")) {
+		return
+	}
+	s.res.Count("role_cycle_freeze_submitted")
+	if st.N%3 == 0 {
+		return
+	}
+	s.add(s.b.bvm(x, constant.RoleContractAddr, "ActivateRole", pb.String(addr), pb.String("reason")), &txMeta{kind: "gov", sender: x, note: "activate-role/govadmin/" + addr, target: addr})
+	s.flush()
+	if st.N%3 == 1 {
+		return
+	}
+	for _, id := range append([]string(nil), s.gov.open...) {
+		s.add(s.b.bvm(x, constant.GovernanceContractAddr, "Vote", pb.String(id), pb.String("approve"), pb.String("r")), &txMeta{kind: "vote", sender: x, note: "approve", target: id})
+	}
+	s.flush()
+}
+
 func applyGov(s *scn, st CStep) {
 	switch st.Op {
+	case "rolecycle":
+		applyRoleCycle(s, st)
 	case "gov":
 		c := s.chains[st.A%len(s.chains)]
 		var k *Key
@@ -106,6 +141,20 @@ func applyGov(s *scn, st CStep) {
 			}
 			target = addr
 			tx = s.b.bvm(k, constant.RoleContractAddr, method+"Role", pb.String(addr), pb.String("reason"))
+		} else if st.Obj == "chain" && st.Act == "reregister" {
+			// a user asks for a registration under an id that is taken; with N even every administrator approves whatever
+			// proposal comes back (none on a correct node: the id stays taken for ever)
+			k = s.users[st.N%len(s.users)]
+			target = c.id
+			args := []*pb.Arg{pb.String(c.id), pb.String(fmt.Sprintf("name-%s-again%d", c.id, st.N)), pb.Bytes(nil), pb.String("ETH"), pb.Bytes(nil), pb.String("broker"),
+				pb.String("desc"), pb.String(happyRule), pb.String("url"), pb.String(k.Addr.String()), pb.String("reason")}
+			note := fmt.Sprintf("reregister-chain/outsider/%s", target)
+			if st.N%2 == 0 {
+				s.govApprove(k, constant.AppchainMgrContractAddr, note, target, "RegisterAppchain", args...)
+				s.res.Count("gov_reregister_chain_with_approval")
+				return
+			}
+			tx = s.b.bvm(k, constant.AppchainMgrContractAddr, "RegisterAppchain", args...)
 		} else if st.Obj == "chain" && st.Act == "update" {
 			// the chain's admin updates the appchain: new name and/or a new admin list (possibly naming an address twice);
 			// a lower-priority proposal than freeze/logout on the same object
@@ -398,13 +447,18 @@ func afterBlockGov(s *scn, h uint64, txs []*pb.BxhTransaction, metas []*txMeta, 
 			continue
 		}
 		s.res.Count("votes_submitted")
+		if a := prevSt["role:"+mt.sender.Addr.String()]; a != "" && a != "available" && a == curSt["role:"+mt.sender.Addr.String()] {
+			s.res.Count("probe_vote_submitted_by_" + a + "_admin")
+		}
 		if ref.Receipts[i].Status != pb.Receipt_SUCCESS {
 			continue
 		}
 		s.res.Count("votes_accepted")
 		mp := gm.proposals[mt.target]
 		voter := mt.sender.Addr.String()
-		if a, b := prevSt["role:"+voter], curSt["role:"+voter]; (a == "frozen" || a == "forbidden") && a == b {
+		// frozen and forbidden administrators are unavailable; so is one whose activation (from frozen) or logout is
+		// still being voted on: the activation has not been granted yet, the logout already took it out of the electorate
+		if a, b := prevSt["role:"+voter], curSt["role:"+voter]; (a == "frozen" || a == "forbidden" || a == "activating" || a == "logouting") && a == b {
 			s.vio("C15", "vote-by-unavailable-admin-accepted", a, "block %d tx %d: a vote on %s by administrator %s, whose role is %s, was accepted", h, i, mt.target, voter, a)
 		}
 		if !admins[voter] {
